@@ -106,12 +106,20 @@ func (r *reference) String() string {
 	return fmt.Sprintf("${%v}", r.Path)
 }
 
-func (r *reference) resolveRef(cfg *Config, opts *options) (value, error) {
+// resolveRef looks the reference up in the configuration cfg belongs to and
+// in the environments. The reference is marked as being resolved in the
+// current scope; owner identifies the value resolving it (nil if unknown): a
+// value may resolve its reference again in the scope it did so before, which
+// is a repeated read. Whatever is evaluated during the lookup, or later while
+// the value found is being used, happens in a nested scope, where finding
+// the reference being resolved once more is a cycle.
+func (r *reference) resolveRef(cfg *Config, opts *options, owner interface{}) (value, error) {
 	env := opts.env
 
-	if ok := opts.activeFields.AddNew(r.Path.String()); !ok {
+	if ok := opts.activeFields.AddNewBy(r.Path.String(), owner); !ok {
 		return nil, raiseCyclicErr(r.Path.String())
 	}
+	defer opts.scopeActiveFields()()
 
 	var err Error
 
@@ -160,7 +168,7 @@ func (r *reference) resolveEnv(cfg *Config, opts *options) (string, parse.Config
 }
 
 func (r *reference) resolve(cfg *Config, opts *options) (value, error) {
-	v, err := r.resolveRef(cfg, opts)
+	v, err := r.resolveRef(cfg, opts, nil)
 	if v != nil || criticalResolveError(err) {
 		return v, err
 	}
